@@ -410,6 +410,11 @@ fn scenario(kind: Kind, seed: u64, k: u64, out: &Out) {
                     net.grow(&mut w, 1);
                     continue;
                 }
+                // deliver what is in flight first: the fork depth is judged against what the client knows
+                w.pump(&mut hook, 10_000);
+                if w.dead {
+                    break;
+                }
                 let stored = w.c().storage.get_last_n_headers();
                 let tipn: u64 = w.c().storage.get_tip_header().raw().number().unpack();
                 let main_tip = w.chains[net.main].tip();
